@@ -159,6 +159,30 @@ def refHashBalance (mask : UInt32) (pick : Nat) (key : Option Bytes) (parts : Li
   | none => randomBalance pick parts
   | some k => if parts.length = 0 then none else some (refHashIndex mask (fnv1a32 k) parts.length)
 
+/-! ### Hash / ReferenceHash with a user-supplied `hash.Hash32`
+
+A `hash.Hash32` is modelled by its state space: `Reset` puts it into `init`, `Write` folds bytes in, `Sum32` reads it out.
+`Balance` does `hasher.Reset(); hasher.Write(key); hasher.Sum32()` under `h.lock`; the hasher's state persists
+between calls (it is the caller's object), hence the state argument. -/
+
+structure Hasher (σ : Type) where
+  init : σ
+  write : σ → Bytes → σ
+  sum : σ → UInt32
+
+/-- `(*Hash).Balance` with `Hasher != nil`, non-nil key: new hasher state and returned index. -/
+def hashBalanceWith {σ : Type} (h : Hasher σ) (_st : σ) (key : Bytes) (n : Nat) : σ × Int :=
+  let st := h.write h.init key
+  (st, hashIndex (h.sum st) n)
+
+def refHashBalanceWith {σ : Type} (h : Hasher σ) (mask : UInt32) (_st : σ) (key : Bytes) (n : Nat) : σ × Int :=
+  let st := h.write h.init key
+  (st, refHashIndex mask (h.sum st) n)
+
+/-- FNV-1a as a `Hasher` (what `fnv.New32a()` is) -/
+def fnvHasher : Hasher UInt32 :=
+  { init := fnvOffset, write := fun s b => b.foldl (fun h x => (h ^^^ x.toUInt32) * fnvPrime) s, sum := id }
+
 /-! ### CRC32Balancer / Murmur2Balancer -/
 
 def keyLen : Option Bytes → Nat
